@@ -254,42 +254,60 @@ func (c *Ctx) e9GroupLawBody(cfg string) {
 			s.obl("E9", key, "(*Point).Negate", ok, "Negate(X:Y:Z:T) = (−X : Y : Z : −T) for all X,Y,Z,T", fmt.Sprintf("Negate(X:Y:Z:T) = (%s : %s : %s : %s), expected (−X : Y : Z : −T)", feStr(g[0]), feStr(g[1]), feStr(g[2]), feStr(g[3])))
 		}
 	}
-	// Add / Subtract against the affine law
+	// Add / Subtract against the affine law, for every aliasing pattern of {receiver, p, q}
 	for _, op := range []struct {
 		fn   string
 		sign int64
 	}{{"(*Point).Add", 1}, {"(*Point).Subtract", -1}} {
-		s := c.newE9(cfg, nil)
-		d := s.d
-		p, q := s.point("1", true), s.point("2", true)
-		v := s.newStruct("Point", "v", nil)
-		out := s.call(op.fn, v, p.ptr, q.ptr)
-		key := "E9/" + op.fn + "/law"
-		if s.failOutcome("E9", key, op.fn, out) {
-			continue
-		}
-		x1, y1 := s.affine(p)
-		x2, y2 := s.affine(q)
-		if op.sign < 0 {
-			x2 = d.Neg(x2)
-		}
-		x3, y3 := s.addLaw(x1, y1, x2, y2)
-		ok, why := s.checkPointIs(v, x3, y3)
-		what := "P+Q"
-		if op.sign < 0 {
-			what = "P−Q = P+(−Q)"
-		}
-		s.obl("E9", key, op.fn, ok, op.fn+" equals the affine twisted-Edwards law for "+what+" as an identity of rational functions in (X1,Y1,Z1,X2,Y2,Z2) with T=XY/Z, and T3·Z3 = X3·Y3", op.fn+": "+why)
-		// representation independence
-		g := s.coords(v, "x", "y", "z", "t")
-		zi := d.Inv(g[2])
-		inv := true
-		for _, vars := range [][]string{{"X1", "Y1", "Z1"}, {"X2", "Y2", "Z2"}} {
-			if !s.projInvariant(d.Mul(g[0], zi), vars) || !s.projInvariant(d.Mul(g[1], zi), vars) {
-				inv = false
+		for _, al := range []string{"distinct", "v=p", "v=q", "p=q", "v=p=q"} {
+			s := c.newE9(cfg, nil)
+			d := s.d
+			p := s.point("1", true)
+			q := p
+			if al != "p=q" && al != "v=p=q" {
+				q = s.point("2", true)
 			}
+			v := s.newStruct("Point", "v", nil)
+			switch al {
+			case "v=p", "v=p=q":
+				v = p.ptr
+			case "v=q":
+				v = q.ptr
+			}
+			out := s.call(op.fn, v, p.ptr, q.ptr)
+			key := "E9/" + op.fn + "/law"
+			if al != "distinct" {
+				key += "[" + al + "]"
+			}
+			if s.failOutcome("E9", key, op.fn, out) {
+				continue
+			}
+			x1, y1 := s.affine(p)
+			x2, y2 := s.affine(q)
+			if op.sign < 0 {
+				x2 = d.Neg(x2)
+			}
+			x3, y3 := s.addLaw(x1, y1, x2, y2)
+			ok, why := s.checkPointIs(v, x3, y3)
+			what := "P+Q"
+			if op.sign < 0 {
+				what = "P−Q = P+(−Q)"
+			}
+			s.obl("E9", key, op.fn, ok, op.fn+" ("+al+" storage) equals the affine twisted-Edwards law for "+what+" as an identity of rational functions in the input coordinates with T=XY/Z, and T3·Z3 = X3·Y3", op.fn+" with "+al+" storage: "+why)
+			if al != "distinct" {
+				continue
+			}
+			// representation independence
+			g := s.coords(v, "x", "y", "z", "t")
+			zi := d.Inv(g[2])
+			inv := true
+			for _, vars := range [][]string{{"X1", "Y1", "Z1"}, {"X2", "Y2", "Z2"}} {
+				if !s.projInvariant(d.Mul(g[0], zi), vars) || !s.projInvariant(d.Mul(g[1], zi), vars) {
+					inv = false
+				}
+			}
+			s.obl("E9", "E9/"+op.fn+"/projective-invariance", op.fn, inv, "affine result unchanged when either input is rescaled (λX:λY:λZ:λT)", "the affine result changes when an input's projective representation is rescaled")
 		}
-		s.obl("E9", "E9/"+op.fn+"/projective-invariance", op.fn, inv, "affine result unchanged when either input is rescaled (λX:λY:λZ:λT)", "the affine result changes when an input's projective representation is rescaled")
 	}
 	// doubling: fromP1xP1(Double(FromP3(P))) equals the law for P+P modulo the curve equation
 	{
